@@ -59,7 +59,20 @@ func c32Cluster(t *testing.T, env *vkit.Env, rec *vkit.Rec, replay *remapCluster
 	ctx := context.Background()
 	r := env.Rand("c32b")
 
+	var checkOnce func(cs *remapClusterCase, oi int, seq0 int64, report bool) bool
+	// The remap is asynchronous: core hands it to its worker pool after the operation returned, and nothing of it is
+	// visible until that goroutine has been given a CPU. A verdict that a late remap could still overturn is therefore
+	// only reported when it persists after a second, much longer quiet period (a genuinely missing or stale remap
+	// persists for ever; a late one shows up).
 	check := func(cs *remapClusterCase, oi int, seq0 int64) bool {
+		if checkOnce(cs, oi, seq0, false) {
+			return true
+		}
+		rec.Count("cluster/rechecks_after_a_longer_quiet_period", 1)
+		w.cl.WaitQuietWindow(400*time.Millisecond, 20*time.Second)
+		return checkOnce(cs, oi, seq0, true)
+	}
+	checkOnce = func(cs *remapClusterCase, oi int, seq0 int64, report bool) bool {
 		snap := w.cl.Snapshot(ctx)
 		recs, err := w.cl.ResourceRecords(ctx)
 		if err != nil {
@@ -67,6 +80,9 @@ func c32Cluster(t *testing.T, env *vkit.Env, rec *vkit.Rec, replay *remapCluster
 			return false
 		}
 		viol := func(key, what string) bool {
+			if !report {
+				return false
+			}
 			cs.FailedAt = oi
 			cs.Ops = cs.Ops[:oi+1]
 			cs.Events = eventsBrief(w.b.EventsSince(seq0))
